@@ -102,4 +102,517 @@ theorem Upd.pubRel {w w' : World} {p s : Nat} {P P' : Pub} {c c' : Conn}
     · rename_i hq; rw [hq.2, hC]; simp [ec]
     · rfl
 
+/-! ### `retrieveReturned` stays within the frame -/
+
+theorem releaseChunk_eraseRF (P : Pub) (c : Nat) : eraseRF (P.releaseChunk c) = eraseRF P := by
+  simp only [Pub.releaseChunk]; split <;> rfl
+
+theorem borrowChunk_eraseRF (P : Pub) (c : Nat) : eraseRF (P.borrowChunk c) = eraseRF P := rfl
+
+theorem drainComp_eraseRF : ∀ (comp : List Nat) (P : Pub) (used : List Bool),
+    eraseRF (drainComp P used comp).1 = eraseRF P := by
+  intro comp
+  induction comp with
+  | nil => intro P used; rfl
+  | cons ch r ih =>
+    intro P used
+    simp only [drainComp]
+    split
+    · rw [ih, releaseChunk_eraseRF]
+    · exact ih P used
+
+theorem retrieveFrom_pubRel {p : Nat} : ∀ (slots : List (Option Nat)) (w : World),
+    PubRel p w (retrieveFrom w p slots) := by
+  intro slots
+  induction slots with
+  | nil => intro w; exact PubRel.refl p w
+  | cons x r ih =>
+    intro w
+    cases x with
+    | none => simp only [retrieveFrom]; exact ih w
+    | some s =>
+      simp only [retrieveFrom]
+      split
+      · rename_i P c hP hC
+        refine PubRel.trans ?_ (ih _)
+        exact (upd_PC _ hP hC (c' := { c with comp := [], used := (drainComp P c.used c.comp).2 })
+          rfl).pubRel hP hC (drainComp_eraseRF _ _ _) rfl
+      · exact ih w
+
+theorem retrieveReturned_pubRel' (w : World) (p : Nat) : PubRel p w (retrieveReturned w p) := by
+  unfold retrieveReturned
+  split
+  · exact PubRel.refl p w
+  · exact retrieveFrom_pubRel _ w
+
+theorem retrieveReturned_pubRel {G : GT} {A : GA} {w : World} {p : Nat} (_hi : Inv G A w) :
+    PubRel p w (retrieveReturned w p) := retrieveReturned_pubRel' w p
+
+/-! ### the outcomes of `try_send` -/
+
+theorem trySend_cases (c : Conn) (ov : Bool) (chunk seq : Nat) :
+    (∃ c', c.trySend ov chunk seq = (c', .full) ∧ ctop c' = ctop c ∧ c'.cap = c.cap ∧
+      c'.sub = c.sub ∧ c'.comp = c.comp ∧ c'.used = c.used ∧ c'.borrow = c.borrow) ∨
+    (∃ c', c.trySend ov chunk seq = (c', .ok none) ∧ c.sub.length < max c.cap 1 ∧
+      ctop c' = ctop c ∧ c'.cap = c.cap ∧
+      c'.sub = c.sub ++ [(chunk, seq)] ∧ c'.comp = c.comp ∧ c'.used = c.used.set chunk true ∧
+      c'.borrow = c.borrow) ∨
+    (∃ c' old oseq rest, c.sub = (old, oseq) :: rest ∧
+      (c.used.set chunk true).getD old false = true ∧
+      c.trySend ov chunk seq = (c', .ok (some old)) ∧ ctop c' = ctop c ∧ c'.cap = c.cap ∧
+      c'.sub = rest ++ [(chunk, seq)] ∧ c'.comp = c.comp ∧
+      c'.used = (c.used.set chunk true).set old false ∧ c'.borrow = c.borrow) ∨
+    (∃ c' old oseq rest, c.sub = (old, oseq) :: rest ∧
+      (c.used.set chunk true).getD old false = false ∧
+      c.trySend ov chunk seq = (c', .corrupted) ∧ ctop c' = ctop c ∧
+      c'.comp = c.comp ∧ c'.used = c.used.set chunk true) := by
+  simp only [Conn.trySend]
+  split
+  · exact Or.inl ⟨_, rfl, rfl, rfl, rfl, rfl, rfl, rfl⟩
+  · split
+    · rename_i hfull
+      cases hsub : c.sub with
+      | nil =>
+        refine Or.inr (Or.inl ⟨_, rfl, ?_, rfl, rfl, rfl, rfl, rfl, rfl⟩)
+        show 0 < max c.cap 1; omega
+      | cons a rest =>
+        obtain ⟨old, oseq⟩ := a
+        simp only
+        split
+        · rename_i hu
+          exact Or.inr (Or.inr (Or.inl ⟨_, old, oseq, rest, rfl, hu, rfl, rfl, rfl, rfl, rfl, rfl, rfl⟩))
+        · rename_i hu
+          refine Or.inr (Or.inr (Or.inr ⟨_, old, oseq, rest, rfl, ?_, rfl, rfl, rfl, rfl⟩))
+          simpa using hu
+    · rename_i hfull
+      refine Or.inr (Or.inl ⟨_, rfl, ?_, rfl, rfl, rfl, rfl, rfl, rfl⟩)
+      simp only [ge_iff_le, Nat.not_le] at hfull
+      omega
+
+/-! ### elementary accounting steps -/
+
+/-- only the connection `(p, s)` changes, its used bits do not -/
+theorem Inv.update_C {G : GT} {A : GA} {w : World} {p s : Nat} {P : Pub} {c c' : Conn}
+    (hi : Inv G A w) (hP : getP w p = some P) (hC : getC w p s = some c)
+    (ec : ctop c' = ctop c) (hu : c'.used = c.used)
+    (hca : ∀ S, getS w s = some S → ConnAcc w.cfg c' P S) : Inv G A (setC w c') := by
+  obtain ⟨_, _, _, hubo, hub1⟩ := get_update_PC (P' := P) hP hC ec
+  have h1 : Inv G A (setC (setP w p P) c') := by
+    refine hi.update_PC hP hC rfl ec rfl rfl ?_ (hi.acc.pubs p P hP).2 hca
+    intro hex
+    refine ((hi.acc.pubs p P hP).1 hex).congr ?_
+    intro t x _
+    by_cases hts : t = s
+    · subst hts; rw [hub1, hu, usedBit_of_getC hC]
+    · exact hubo p t x (fun h => hts h.2)
+  exact h1.ext ((upd_PC P hP hC ec).obsEq (upd_C hP hC ec) (nodup_setC _ hi.top.reg.nodup))
+
+theorem borrow_release_comm (P : Pub) {a b : Nat} (hab : a ≠ b) :
+    (P.borrowChunk a).releaseChunk b = (P.releaseChunk b).borrowChunk a := by
+  have h1 : (P.rc.set a (P.rc.getD a 0 + 1)).getD b 0 = P.rc.getD b 0 := by
+    rw [getD_set_nat, if_neg (fun h => hab h.1)]
+  have h2 : (P.rc.set b (P.rc.getD b 0 - 1)).getD a 0 = P.rc.getD a 0 := by
+    rw [getD_set_nat, if_neg (fun h => hab h.1.symm)]
+  have h3 : (P.rc.set a (P.rc.getD a 0 + 1)).set b (P.rc.getD b 0 - 1) =
+      (P.rc.set b (P.rc.getD b 0 - 1)).set a (P.rc.getD a 0 + 1) := List.set_comm _ _ hab
+  simp only [Pub.releaseChunk, Pub.borrowChunk, h1]
+  split
+  · simp only [h2, h3]
+  · simp only [h2, h3]
+
+/-- a chunk is appended to a submission queue that has room (`borrow_chunk`, `used[chunk] := true`) -/
+theorem push_inv {G : GT} {A : GA} {w : World} {p s chunk seq : Nat} {P : Pub} {c c' : Conn}
+    (hi : Inv G A w) (hP : getP w p = some P) (hC : getC w p s = some c) (hs : c.sAtt = true)
+    (hcomp : c.comp = []) (hlen : c.sub.length < max c.cap 1)
+    (hub : c.used.getD chunk false = false)
+    (hch : chunk ∈ P.hist ∨ (A.xp = some (p, chunk) ∧ A.xFresh = false))
+    (ec : ctop c' = ctop c) (hcap : c'.cap = c.cap) (hsub : c'.sub = c.sub ++ [(chunk, seq)])
+    (hcomp' : c'.comp = c.comp) (hused : c'.used = c.used.set chunk true)
+    (hbor : c'.borrow = c.borrow) :
+    Inv G A (setC (setP w p (P.borrowChunk chunk)) c') := by
+  obtain ⟨hpid, hsid, hmem, hex, pa, S, hS, ct, ca⟩ := hi.sender hP hC hs
+  have huniq := hi.top.conn_unique hP (s := s)
+  obtain ⟨g1, g2, g3, g4⟩ := ctop_eq ec
+  have hlt : chunk < P.n := by
+    rcases hch with h | h
+    · exact pa.histLt _ h
+    · exact pa.xLt _ h.1
+  have hul : chunk < c.used.length := by rw [ca.usedLen]; exact hlt
+  have hrl : chunk < P.rc.length := by rw [pa.free.rcLen]; exact hlt
+  have e0 := pa.rcEq chunk hlt
+  have hpos : 1 ≤ (P.hist.filter (· = chunk)).length + extra A p chunk := by
+    rcases hch with h | h
+    · have : 1 ≤ (P.hist.filter (· = chunk)).length := by
+        apply List.length_pos_of_mem (a := chunk); simp [List.mem_filter, h]
+      omega
+    · have : extra A p chunk = 1 := by simp [extra, h.1]
+      omega
+  have hnf : chunk ∉ flight c S := by
+    intro h; have := (ca.used hs chunk).mpr h; rw [hub] at this; cases this
+  obtain ⟨_, _, _, hubo, hub1⟩ := get_update_PC (P' := P.borrowChunk chunk) hP hC ec
+  refine hi.update_PC hP hC (borrowChunk_ptop P chunk) ec rfl rfl ?_
+    (fun h => by rw [hex] at h; cases h) ?_
+  · intro _
+    refine ⟨pa.free.borrow (fun _ => by unfold refCnt at e0; omega), ?_, ?_, pa.loanLbl,
+      pa.histNodup, pa.histLt, pa.xLt, ?_⟩
+    · intro c1 hc1
+      rw [borrowChunk_rc, getD_set_nat]
+      have key := connCnt_change_one (w := w) (w' := setC (setP w p (P.borrowChunk chunk)) c')
+        (p := p) (c := c1) hmem huniq (fun t ht => hubo p t c1 (fun h => ht h.2))
+      rw [hub1, hused, getD_set_bool, usedBit_of_getC hC] at key
+      have e1 := pa.rcEq c1 hc1
+      unfold refCnt at e1 ⊢
+      simp only [borrowChunk_loans, borrowChunk_hist, borrowChunk_conns]
+      by_cases hcc : chunk = c1
+      · subst hcc
+        simp only [true_and, hul, hrl, if_true, hub] at key ⊢
+        simp at key
+        omega
+      · have h1 : ¬ (chunk = c1 ∧ chunk < c.used.length) := fun h => hcc h.1
+        have h2 : ¬ (chunk = c1 ∧ chunk < P.rc.length) := fun h => hcc h.1
+        simp only [h1, h2, if_false] at key ⊢
+        omega
+    · intro l c1 hl
+      rw [borrowChunk_loans] at hl
+      obtain ⟨h1, h2⟩ := pa.loans l c1 hl
+      refine ⟨h1, ?_⟩
+      rw [borrowChunk_rc, getD_set_nat]
+      by_cases hcc : chunk = c1
+      · subst hcc; exfalso
+        unfold refCnt at e0
+        have : 1 ≤ (P.loans.filter (·.2 = chunk)).length := by
+          apply List.length_pos_of_mem (a := (l, chunk)); simp [List.mem_filter, hl]
+        omega
+      · rw [if_neg (fun h => hcc h.1)]; exact h2
+    · intro c1 hx hf
+      have h2 := pa.xFresh c1 hx hf
+      rw [borrowChunk_rc, getD_set_nat]
+      by_cases hcc : chunk = c1
+      · subst hcc; exfalso
+        have hh : chunk ∈ P.hist := by
+          rcases hch with h | h
+          · exact h
+          · rw [hf] at h; cases h.2
+        have : 1 ≤ (P.hist.filter (· = chunk)).length := by
+          apply List.length_pos_of_mem (a := chunk); simp [List.mem_filter, hh]
+        have : extra A p chunk = 1 := by simp [extra, hx]
+        unfold refCnt at e0
+        omega
+      · rw [if_neg (fun h => hcc h.1)]; exact h2
+  · intro S' hS'
+    rw [hS] at hS'; cases hS'
+    have hfl : (flight c' S).Perm (chunk :: flight c S) := by
+      simp only [flight, hsub, hcomp', hcomp, g1, List.map_append, List.map_cons, List.map_nil,
+        List.append_nil, List.append_assoc, List.singleton_append]
+      exact List.perm_middle
+    refine ⟨by rw [hused, List.length_set]; exact ca.usedLen, ?_, by rw [hbor]; exact ca.borrowMax,
+      ?_, by rw [hbor, g1]; exact ca.borrow, ?_, ?_, ?_⟩
+    · rw [hsub, hcap, List.length_append]; simp only [List.length_singleton]; omega
+    · have := ca.borrowMax
+      rw [hsub, hcap, hbor, hcomp', hcomp, List.length_append]
+      simp only [List.length_singleton, List.length_nil]; omega
+    · intro _
+      rw [hfl.nodup_iff, List.nodup_cons]
+      exact ⟨hnf, ca.nodup hs⟩
+    · intro _ x
+      rw [hfl.mem_iff, hused, getD_set_bool, List.mem_cons]
+      by_cases hx : chunk = x
+      · subst hx; simp [hul]
+      · rw [if_neg (fun h => hx h.1), ca.used hs x]
+        constructor
+        · intro h; exact Or.inr h
+        · rintro (h | h)
+          · exact absurd h.symm hx
+          · exact h
+    · intro h; rw [g3, hs] at h; cases h
+
+/-- `ConnAcc` only reads the accounting fields of the connection -/
+theorem ConnAcc.of_fields {cfg : Cfg} {c c' : Conn} {P : Pub} {S : Sub} (h : ConnAcc cfg c P S)
+    (ec : ctop c' = ctop c) (hcap : c'.cap = c.cap) (hsub : c'.sub = c.sub)
+    (hcomp : c'.comp = c.comp) (hused : c'.used = c.used) (hbor : c'.borrow = c.borrow) :
+    ConnAcc cfg c' P S := by
+  obtain ⟨g1, g2, g3, g4⟩ := ctop_eq ec
+  have hf : flight c' S = flight c S := by unfold flight; rw [hsub, hcomp, g1]
+  exact ⟨by rw [hused]; exact h.usedLen, by rw [hsub, hcap]; exact h.subCap,
+    by rw [hbor]; exact h.borrowMax, by rw [hsub, hcap, hbor, hcomp]; exact h.total,
+    by rw [hbor, g1]; exact h.borrow, by rw [hf, g3]; exact h.nodup,
+    by rw [hf, g3, hused]; exact h.used, by rw [g3, hused, hsub, hcomp, hbor]; exact h.idle⟩
+
+/-- the oldest entry of the submission queue is handed over to the completion queue -/
+theorem move_inv {G : GT} {A : GA} {w : World} {p s : Nat} {P : Pub} {c : Conn}
+    {old oseq : Nat} {rest : List (Nat × Nat)}
+    (hi : Inv G A w) (hP : getP w p = some P) (hC : getC w p s = some c) (hs : c.sAtt = true)
+    (hsub : c.sub = (old, oseq) :: rest) (hcomp : c.comp = []) :
+    Inv G A (setC w { c with sub := rest, comp := [old] }) := by
+  obtain ⟨hpid, hsid, hmem, hex, pa, S, hS, ct, ca⟩ := hi.sender hP hC hs
+  refine hi.update_C hP hC rfl rfl ?_
+  intro S' hS'; rw [hS] at hS'; cases hS'
+  have hfl : (flight { c with sub := rest, comp := [old] } S).Perm (flight c S) := by
+    simp only [flight, hsub, hcomp, List.map_cons, List.append_nil, List.cons_append,
+      List.append_assoc, List.nil_append]
+    exact List.perm_middle
+  refine ⟨ca.usedLen, ?_, ca.borrowMax, ?_, ca.borrow, ?_, ?_, ?_⟩
+  · have := ca.subCap; rw [hsub] at this; simp only [List.length_cons] at this ⊢; omega
+  · have := ca.total; rw [hsub, hcomp] at this
+    simp only [List.length_cons, List.length_nil] at this ⊢; omega
+  · intro _; rw [hfl.nodup_iff]; exact ca.nodup hs
+  · intro _ x; rw [hfl.mem_iff]; exact ca.used hs x
+  · intro h
+    have h' : c.sAtt = false := h
+    rw [hs] at h'; cases h'
+
+/-- safe overflow: the oldest entry is evicted (`release_chunk`), the new chunk is appended -/
+theorem evict_inv {G : GT} {A : GA} {w : World} {p s chunk seq : Nat} {P : Pub} {c c' : Conn}
+    {old oseq : Nat} {rest : List (Nat × Nat)}
+    (hi : Inv G A w) (hP : getP w p = some P) (hC : getC w p s = some c) (hs : c.sAtt = true)
+    (hcomp : c.comp = []) (hsub0 : c.sub = (old, oseq) :: rest)
+    (hub : c.used.getD chunk false = false)
+    (hch : chunk ∈ P.hist ∨ (A.xp = some (p, chunk) ∧ A.xFresh = false))
+    (ec : ctop c' = ctop c) (hcap : c'.cap = c.cap) (hsub : c'.sub = rest ++ [(chunk, seq)])
+    (hcomp' : c'.comp = c.comp) (hused : c'.used = (c.used.set chunk true).set old false)
+    (hbor : c'.borrow = c.borrow) :
+    Inv G A (setC (setP w p ((P.borrowChunk chunk).releaseChunk old)) c') := by
+  obtain ⟨hpid, hsid, hmem, hex, pa, S, hS, ct, ca⟩ := hi.sender hP hC hs
+  -- step 1: hand the oldest entry over
+  have hi1 := move_inv hi hP hC hs hsub0 hcomp
+  generalize hc1 : ({ c with sub := rest, comp := [old] } : Conn) = c1 at hi1
+  have ec1 : ctop c1 = ctop c := by subst hc1; rfl
+  have u1 : Upd w (setC w c1) p s P c1 := upd_C hP hC ec1
+  have hP1 : getP (setC w c1) p = some P := by rw [u1.pubs]; simp
+  have hC1 : getC (setC w c1) p s = some c1 := by rw [u1.conns]; simp
+  have hs1 : c1.sAtt = true := by subst hc1; exact hs
+  have hcomp1 : c1.comp = old :: [] := by subst hc1; rfl
+  -- step 2: drain it
+  obtain ⟨hold1, hi2⟩ := drain_one hi1 hP1 hC1 hs1 hcomp1
+  have hold : c.used.getD old false = true := by subst hc1; exact hold1
+  have hne : chunk ≠ old := by
+    intro h; rw [h, hold] at hub; cases hub
+  generalize hc2 : ({ c1 with comp := [], used := c1.used.set old false } : Conn) = c2 at hi2
+  have ec2 : ctop c2 = ctop c1 := by subst hc2; rfl
+  have u2 := upd_PC (P.releaseChunk old) hP1 hC1 ec2
+  generalize hw2 : setC (setP (setC w c1) p (P.releaseChunk old)) c2 = w2 at hi2 u2
+  have hP2 : getP w2 p = some (P.releaseChunk old) := by rw [u2.pubs]; simp
+  have hC2 : getC w2 p s = some c2 := by rw [u2.conns]; simp
+  have f1 : c2.sAtt = true := by subst hc2; exact hs1
+  have f2 : c2.comp = [] := by subst hc2; rfl
+  have f3 : c2.sub = rest := by subst hc2; subst hc1; rfl
+  have f4 : c2.cap = c.cap := by subst hc2; subst hc1; rfl
+  have f5 : c2.used = c.used.set old false := by subst hc2; subst hc1; rfl
+  have f6 : c2.borrow = c.borrow := by subst hc2; subst hc1; rfl
+  -- step 3: push
+  have ec3 : ctop c' = ctop c2 := by rw [ec, ec2, ec1]
+  have hi3 := push_inv (seq := seq) (chunk := chunk) (c' := c') hi2 hP2 hC2 f1 f2
+    (by have := ca.subCap; rw [hsub0] at this; simp only [List.length_cons] at this
+        rw [f3, f4]; omega)
+    (by rw [f5, getD_set_bool]; split
+        · rfl
+        · exact hub)
+    (by rw [releaseChunk_hist]; exact hch) ec3 (by rw [hcap, f4]) (by rw [hsub, f3])
+    (by rw [hcomp', hcomp, f2]) (by rw [hused, f5]; exact List.set_comm _ _ hne) (by rw [hbor, f6])
+  have u3 := upd_PC ((P.releaseChunk old).borrowChunk chunk) hP2 hC2 ec3
+  have u := upd_PC ((P.borrowChunk chunk).releaseChunk old) hP hC ec
+  rw [borrow_release_comm P hne] at u ⊢
+  exact hi3.ext (((u1.trans u2).trans u3).obsEq u (nodup_setC _ hi.top.reg.nodup))
+
+/-! ### `deliverTo` -/
+
+theorem setP_setC_comm (w : World) (p : Nat) (P : Pub) (c : Conn) :
+    setP (setC w c) p P = setC (setP w p P) c := rfl
+
+theorem deliverTo_inv {G : GT} {A : GA} {w : World} {p s chunk seq : Nat} {P : Pub}
+    (hi : Inv G A w) (hP : getP w p = some P) (hm : some s ∈ P.conns)
+    (hcomp : ∀ c, getC w p s = some c → c.comp = [])
+    (hub : usedBit w p s chunk = false)
+    (hch : chunk ∈ P.hist ∨ (A.xp = some (p, chunk) ∧ A.xFresh = false)) :
+    Inv G A (deliverTo w p s chunk seq).1 ∧ PubRel p w (deliverTo w p s chunk seq).1 ∧
+    (∀ b, b ≠ s → getC (deliverTo w p s chunk seq).1 p b = getC w p b) ∧
+    (∀ x, x ≠ chunk → usedBit (deliverTo w p s chunk seq).1 p s x = true → usedBit w p s x = true) ∧
+    (∀ c c', getC w p s = some c → getC (deliverTo w p s chunk seq).1 p s = some c' → c'.comp = c.comp) := by
+  obtain ⟨c, hC, hs⟩ := mem_conns_getC hi.top hP hm
+  have hcomp0 := hcomp c hC
+  have hub0 : c.used.getD chunk false = false := by rw [← usedBit_of_getC hC]; exact hub
+  obtain ⟨hpid, hsid, hmem, hex, pa, S, hS, ct, ca⟩ := hi.sender hP hC hs
+  have main : ∃ P' c', Inv G A (deliverTo w p s chunk seq).1 ∧
+      Upd w (deliverTo w p s chunk seq).1 p s P' c' ∧ eraseRF P' = eraseRF P ∧ ctop c' = ctop c ∧
+      c'.comp = c.comp ∧
+      (∀ x, x ≠ chunk → c'.used.getD x false = true → c.used.getD x false = true) := by
+    have hset : ∀ x, x ≠ chunk → (c.used.set chunk true).getD x false = true →
+        c.used.getD x false = true := by
+      intro x hx h
+      rw [getD_set_bool, if_neg (fun h => hx h.1.symm)] at h
+      exact h
+    simp only [deliverTo, hP, hC]
+    rcases trySend_cases c w.cfg.overflow chunk seq with
+      ⟨c', hts, ec, hcap, hsub, hcm, hus, hbo⟩ | ⟨c', hts, hlen, ec, hcap, hsub, hcm, hus, hbo⟩ |
+      ⟨c', old, oseq, rest, hsub0, hu, hts, ec, hcap, hsub, hcm, hus, hbo⟩ |
+      ⟨c', old, oseq, rest, hsub0, hu, hts, ec, hcm, hus⟩
+    · -- queue full, no overflow
+      rw [hts]
+      refine ⟨P, c', ?_, upd_C hP hC ec, rfl, ec, hcm, ?_⟩
+      · exact hi.update_C hP hC ec hus (fun S' hS' => by
+          rw [hS] at hS'; cases hS'
+          exact ca.of_fields ec hcap hsub hcm hus hbo)
+      · intro x _ h; rw [hus] at h; exact h
+    · -- room in the queue
+      rw [hts]
+      simp only [setP_setC_comm]
+      refine ⟨P.borrowChunk chunk, c', ?_, upd_PC _ hP hC ec, rfl, ec, hcm, ?_⟩
+      · exact push_inv hi hP hC hs hcomp0 hlen hub0 hch ec hcap hsub hcm hus hbo
+      · intro x hx h; rw [hus] at h; exact hset x hx h
+    · -- overflow
+      rw [hts]
+      simp only [setP_setC_comm]
+      refine ⟨(P.borrowChunk chunk).releaseChunk old, c', ?_, upd_PC _ hP hC ec, ?_, ec, hcm, ?_⟩
+      · exact evict_inv hi hP hC hs hcomp0 hsub0 hub0 hch ec hcap hsub hcm hus hbo
+      · rw [releaseChunk_eraseRF, borrowChunk_eraseRF]
+      · intro x hx h
+        rw [hus, getD_set_bool] at h
+        split at h
+        · cases h
+        · exact hset x hx h
+    · -- corrupted: impossible
+      exfalso
+      have hof : old ∈ flight c S := by simp [flight, hsub0]
+      have h1 := (ca.used hs old).mpr hof
+      rw [getD_set_bool] at hu
+      split at hu
+      · cases hu
+      · rw [h1] at hu; cases hu
+  obtain ⟨P', c', hinv, u, e, ec, hcm, hmono⟩ := main
+  have hC' : getC (deliverTo w p s chunk seq).1 p s = some c' := by rw [u.conns]; simp
+  refine ⟨hinv, u.pubRel hP hC e ec, ?_, ?_, ?_⟩
+  · intro b hb; rw [u.conns]; simp [hb]
+  · intro x hx h
+    rw [usedBit_of_getC hC'] at h
+    rw [usedBit_of_getC hC]
+    exact hmono x hx h
+  · intro c0 c0' h0 h0'
+    rw [hC] at h0; cases h0
+    rw [hC'] at h0'; cases h0'
+    exact hcm
+
+/-! ### `deliverHistory` -/
+
+theorem deliverHistory_cons (w : World) (p s ch : Nat) (r : List Nat) :
+    ∃ seq, deliverHistory w p s (ch :: r) =
+      deliverHistory (deliverTo (retrieveReturned w p) p s ch seq).1 p s r := ⟨_, rfl⟩
+
+theorem deliverHistory_inv {G : GT} {A : GA} {p s : Nat} :
+    ∀ (chunks : List Nat) (w : World) (P : Pub), Inv G A w → getP w p = some P → some s ∈ P.conns →
+      (∀ ch ∈ chunks, ch ∈ P.hist) → chunks.Nodup → (∀ ch ∈ chunks, usedBit w p s ch = false) →
+      Inv G A (deliverHistory w p s chunks) ∧ PubRel p w (deliverHistory w p s chunks) := by
+  intro chunks
+  induction chunks with
+  | nil => intro w P hi _ _ _ _ _; exact ⟨hi, PubRel.refl p w⟩
+  | cons ch r ih =>
+    intro w P hi hP hm hh hnd hub
+    obtain ⟨seq, hseq⟩ := deliverHistory_cons w p s ch r
+    rw [hseq]
+    obtain ⟨hi1, hd, hc1⟩ := retrieveReturned_inv (p := p) hi
+    have hr1 := retrieveReturned_pubRel' w p
+    generalize retrieveReturned w p = w1 at hi1 hd hc1 hr1 ⊢
+    obtain ⟨P1, hP1, _, hconns1, hhist1, _⟩ := hr1.pub_fwd hP
+    -- used bits only get cleared
+    have hmono : ∀ x, usedBit w1 p s x = true → usedBit w p s x = true := by
+      intro x hx
+      obtain ⟨c, hC, _⟩ := mem_conns_getC hi.top hP hm
+      obtain ⟨c1, hC1, _⟩ := mem_conns_getC hi1.top hP1 (by rw [hconns1]; exact hm)
+      rw [usedBit_of_getC hC1] at hx; rw [usedBit_of_getC hC]
+      exact (hd.mono p s c c1 hC hC1).2 x hx
+    have hub1 : ∀ x ∈ ch :: r, usedBit w1 p s x = false := by
+      intro x hx
+      cases h : usedBit w1 p s x with
+      | false => rfl
+      | true => have := hmono x h; rw [hub x hx] at this; cases this
+    obtain ⟨hi2, hr2, _, hm2, _⟩ := deliverTo_inv (seq := seq) hi1 hP1 (by rw [hconns1]; exact hm)
+      (fun c hc => hc1 P s c hP hm hc) (hub1 ch (by simp))
+      (Or.inl (by rw [hhist1]; exact hh ch (by simp)))
+    generalize (deliverTo w1 p s ch seq).1 = w2 at hi2 hr2 hm2 ⊢
+    obtain ⟨P2, hP2, _, hconns2, hhist2, _⟩ := hr2.pub_fwd hP1
+    rw [List.nodup_cons] at hnd
+    obtain ⟨j1, j2⟩ := ih w2 P2 hi2 hP2 (by rw [hconns2, hconns1]; exact hm)
+      (fun x hx => by rw [hhist2, hhist1]; exact hh x (List.mem_cons_of_mem _ hx)) hnd.2
+      (fun x hx => by
+        cases h : usedBit w2 p s x with
+        | false => rfl
+        | true =>
+          have := hm2 x (by rintro rfl; exact hnd.1 hx) h
+          rw [hub1 x (List.mem_cons_of_mem _ hx)] at this; cases this)
+    exact ⟨j1, (hr1.trans hr2).trans j2⟩
+
+/-! ### the delivery loop of `send` -/
+
+theorem deliverLoop_inv {G : GT} {A : GA} {p c seq : Nat} (hx : A.xp = some (p, c))
+    (hf : A.xFresh = false) :
+    ∀ (slots : List (Option Nat)) (w : World) (n : Nat) (P : Pub), Inv G A w → getP w p = some P →
+      (∀ s, some s ∈ slots → some s ∈ P.conns) →
+      slots.Pairwise (fun a b => ∀ s, a = some s → b ≠ some s) →
+      (∀ s cn, some s ∈ slots → getC w p s = some cn → cn.comp = []) →
+      (∀ s, some s ∈ slots → usedBit w p s c = false) →
+      Inv G A (slots.foldl (fun (acc : World × Nat) sl =>
+          match sl with
+          | none => acc
+          | some s => let (w', ok) := deliverTo acc.1 p s c seq
+                      (w', if ok then acc.2 + 1 else acc.2)) (w, n)).1 ∧
+      PubRel p w (slots.foldl (fun (acc : World × Nat) sl =>
+          match sl with
+          | none => acc
+          | some s => let (w', ok) := deliverTo acc.1 p s c seq
+                      (w', if ok then acc.2 + 1 else acc.2)) (w, n)).1 := by
+  intro slots
+  induction slots with
+  | nil => intro w n P hi _ _ _ _ _; exact ⟨hi, PubRel.refl p w⟩
+  | cons x r ih =>
+    intro w n P hi hP hsl hpw hcomp hub
+    rw [List.pairwise_cons] at hpw
+    cases x with
+    | none =>
+      simp only [List.foldl_cons]
+      exact ih w n P hi hP (fun s hs => hsl s (List.mem_cons_of_mem _ hs)) hpw.2
+        (fun s cn hs => hcomp s cn (List.mem_cons_of_mem _ hs))
+        (fun s hs => hub s (List.mem_cons_of_mem _ hs))
+    | some s =>
+      have hms : some s ∈ some s :: r := List.mem_cons_self
+      obtain ⟨hi1, hr1, ho1, _, _⟩ := deliverTo_inv (seq := seq) hi hP (hsl s hms)
+        (fun cn h => hcomp s cn hms h) (hub s hms) (Or.inr ⟨hx, hf⟩)
+      simp only [List.foldl_cons]
+      rcases hd : deliverTo w p s c seq with ⟨w', ok⟩
+      rw [hd] at hi1 hr1 ho1
+      simp only at hi1 hr1 ho1
+      obtain ⟨P', hP', _, hconns', _, _⟩ := hr1.pub_fwd hP
+      have hne : ∀ t, some t ∈ r → t ≠ s := by
+        intro t ht e
+        exact hpw.1 (some t) ht s rfl (by rw [e])
+      obtain ⟨j1, j2⟩ := ih w' (if ok = true then n + 1 else n) P' hi1 hP'
+        (fun t ht => by rw [hconns']; exact hsl t (List.mem_cons_of_mem _ ht)) hpw.2
+        (fun t cn ht h => by
+          rw [ho1 t (hne t ht)] at h
+          exact hcomp t cn (List.mem_cons_of_mem _ ht) h)
+        (fun t ht => by
+          rw [usedBit_congr (ho1 t (hne t ht))]
+          exact hub t (List.mem_cons_of_mem _ ht))
+      exact ⟨j1, hr1.trans j2⟩
+
+/-- the delivery loop of `send` -/
+theorem deliverAll_inv {G : GT} {A : GA} {w : World} {p c seq : Nat} {P : Pub}
+    (hi : Inv G A w) (hP : getP w p = some P) (hx : A.xp = some (p, c)) (hf : A.xFresh = false)
+    (hcomp : ∀ s cn, some s ∈ P.conns → getC w p s = some cn → cn.comp = [])
+    (hub : ∀ s, some s ∈ P.conns → usedBit w p s c = false) :
+    Inv G A (P.conns.foldl (fun (acc : World × Nat) sl =>
+        match sl with
+        | none => acc
+        | some s => let (w', ok) := deliverTo acc.1 p s c seq
+                    (w', if ok then acc.2 + 1 else acc.2)) (w, 0)).1 ∧
+    PubRel p w (P.conns.foldl (fun (acc : World × Nat) sl =>
+        match sl with
+        | none => acc
+        | some s => let (w', ok) := deliverTo acc.1 p s c seq
+                    (w', if ok then acc.2 + 1 else acc.2)) (w, 0)).1 := by
+  refine deliverLoop_inv hx hf P.conns w 0 P hi hP (fun _ h => h) ?_ hcomp hub
+  rw [List.pairwise_iff_getElem]
+  intro i j hi' hj hij s h1 h2
+  have := hi.top.conn_unique hP (s := s) i j
+    (by rw [List.getElem?_eq_getElem hi', h1]) (by rw [List.getElem?_eq_getElem hj, h2])
+  omega
+
 end Iox2.PubSub.C02P
